@@ -289,6 +289,37 @@ func genECase(t *rapid.T) ECase {
 			State: rapid.SampledFrom([]string{"closed", "closed", "closed", "dirty", "rebuilding"}).Draw(t, "state"),
 		})
 	}
+	if rapid.Bool().Draw(t, "scenario") {
+		// structured: everybody registers, something happens to the elected one, registrations continue
+		for _, i := range rapid.Permutation(seqInts(n)).Draw(t, "order1") {
+			ec.Ops = append(ec.Ops, EOp{K: "register", Node: i})
+		}
+		// the current best non-rebuilding replica
+		best := 0
+		for i, sp := range ec.Specs {
+			if sp.State != "rebuilding" && (ec.Specs[best].State == "rebuilding" || sp.Rev > ec.Specs[best].Rev) {
+				best = i
+			}
+		}
+		switch rapid.IntRange(0, 3).Draw(t, "event") {
+		case 0:
+			ec.Ops = append(ec.Ops, EOp{K: "sigfail", Node: best}, EOp{K: "register", Node: best})
+		case 1:
+			ec.Ops = append(ec.Ops, EOp{K: "dead", Node: best})
+		case 2:
+			ec.Ops = append(ec.Ops, EOp{K: "register", Node: best})
+		default:
+			ec.Ops = append(ec.Ops, EOp{K: "sigfail", Node: best}, EOp{K: "sigfail", Node: best}, EOp{K: "register", Node: best}, EOp{K: "register", Node: best})
+		}
+		for _, i := range rapid.Permutation(seqInts(n)).Draw(t, "order2") {
+			ec.Ops = append(ec.Ops, EOp{K: "register", Node: i})
+			if rapid.IntRange(0, 3).Draw(t, "startnow") == 0 {
+				ec.Ops = append(ec.Ops, EOp{K: "start", Node: rapid.IntRange(0, n-1).Draw(t, "starter")})
+			}
+		}
+		ec.Ops = append(ec.Ops, EOp{K: "start", Node: best})
+		return ec
+	}
 	nops := rapid.IntRange(2, 16).Draw(t, "nops")
 	for len(ec.Ops) < nops {
 		k := rapid.SampledFrom([]string{"register", "register", "register", "register", "start", "start", "startmulti", "sigfail", "dead", "alive"}).Draw(t, "op")
